@@ -13,13 +13,13 @@ import (
 	"bytes"
 	"fmt"
 	"go/ast"
+	"go/constant"
 	"go/importer"
 	"go/parser"
 	"go/token"
 	"go/types"
 	"math/rand"
 	"os"
-	"go/constant"
 	"path/filepath"
 	"reflect"
 	"strings"
@@ -138,11 +138,11 @@ func (e *tx) src() string {
 }
 
 type c01Gen struct {
-	r     *rand.Rand
-	env   [][2]string // name, type
-	nvar  int
-	bad   bool // an error has been injected
-	wantE bool // inject one error somewhere
+	r      *rand.Rand
+	env    [][2]string // name, type
+	nvar   int
+	bad    bool // an error has been injected
+	wantE  bool // inject one error somewhere
 	budget int
 }
 
@@ -331,15 +331,15 @@ func (g *c01Gen) expr(t string, d int) *tx {
 // ---------- statements ----------
 
 type ts struct {
-	K      string // define var assign opassign incdec expr define2 commaok if for for3 range switch ret block go defer send
-	Name   string
-	Names  []string
-	T      string
-	L, E   *tx
-	Es     []*tx
-	Op     token.Token
-	Body   []*ts
-	Else   []*ts
+	K       string // define var assign opassign incdec expr define2 commaok if for for3 range switch ret block go defer send
+	Name    string
+	Names   []string
+	T       string
+	L, E    *tx
+	Es      []*tx
+	Op      token.Token
+	Body    []*ts
+	Else    []*ts
 	HasElse bool
 	Clauses []tsClause
 }
@@ -1279,7 +1279,6 @@ func c01FoldBools(v reflect.Value, info *types.Info) {
 		}
 	}
 }
-
 
 // the emitted expression as the generic tree the model builds (same tags as the recorded operations)
 func (b *c01B) generic(x ast.Expr) string {
